@@ -140,7 +140,12 @@ func genScenario(r *rng, k int, tier string) *scenario {
 			sc.q = 0
 		}
 	}
-	sc.pop = r.chance(1, 4)
+	// MPBH_FOCUS biases the generator towards the mechanism a check is about (the other half of the cases stays generic)
+	focus := ""
+	if r.chance(1, 2) {
+		focus = os.Getenv("MPBH_FOCUS")
+	}
+	sc.pop = r.chance(1, 4) || focus == "pop"
 	sc.delay = r.chance(1, 8)
 	sc.notifier = r.chance(1, 3)
 	// bars and the order in which they are created
@@ -157,7 +162,7 @@ func genScenario(r *rng, k int, tier string) *scenario {
 		}
 		b.rm = r.chance(1, 5)
 		b.noPop = sc.pop && r.chance(1, 4)
-		if i > 0 && r.chance(1, 5) {
+		if i > 0 && (r.chance(1, 5) || (focus == "queue" && r.chance(1, 2))) {
 			b.after = r.intn(i)
 		}
 		if r.chance(1, 5) || tall {
@@ -167,14 +172,14 @@ func genScenario(r *rng, k int, tier string) *scenario {
 			}
 			b.xrev = r.bool()
 		}
-		if r.chance(1, 3) {
+		if r.chance(1, 3) || focus == "sync" {
 			b.syncW = 1 + r.intn(12)
 		}
 		b.shut = -1
 		if r.chance(1, 3) {
 			b.shut, b.shutSide = r.intn(5), r.intn(2)
 		}
-		if r.chance(1, 3) {
+		if r.chance(1, 3) || (focus == "sync" && r.chance(1, 2)) {
 			b.nsp, b.nsa = r.intn(3), r.intn(3)
 		}
 		sc.bars = append(sc.bars, b)
